@@ -85,7 +85,10 @@ Qed.
 Lemma data_vok C v : data_value v = true -> vok C v.
 Proof.
   revert v. fix IH 1. intros v. destruct v; cbn [data_value]; intros H; try exact I; try discriminate.
-  apply vok_list. induction l as [|x r IHr]; cbn [forallb] in H; constructor; apply andb_prop in H as [H1 H2]; auto.
+  - apply vok_list. induction l as [|x r IHr]; cbn [forallb] in H; constructor; apply andb_prop in H as [H1 H2]; auto.
+  - apply vok_map. induction entries as [|[k x] r IHr]; cbn [forallb] in H; constructor.
+    + apply andb_prop in H as [H1 H2]. apply andb_prop in H1 as [Hk Hx]. cbn [fst snd]. split; apply IH; assumption.
+    + apply andb_prop in H as [H1 H2]. apply IHr. exact H2.
 Qed.
 
 (* the theorem for whole templates, with the two side conditions discharged: compiled code is well
